@@ -464,3 +464,7 @@ def run(facts, rep, tier):
     from . import c09
     from .c06 import _MultiOnly
     c09.rule_r1(facts, _MultiOnly(rep, ("retry-loop-draws-fresh-candidate", "fresh-candidate")), "C12-R7")
+    rep.rule("C12-R8", "= C03-R2b: a request worker whose recursion never ends overflows its stack, which aborts the whole process (catch_unwind does not help): tree transformers "
+             "behind the code actions recurse over the untouched children only.")
+    from . import c03
+    c03.rule_r2b(facts, rep, "C12-R8")
